@@ -260,7 +260,7 @@ theorem path_walk_frame (cx : Cx) (mi : Nat) (pm : PM) (p : NamePart) (rest : Li
 /-- an option whose first name part cannot be resolved changes nothing -/
 theorem unresolved_first_part_unchanged (cx : Cx) (mi : Nat) (pm : PM) (p : NamePart) (rest : List NamePart)
     (v : AV) (e : Err) (hf : resolvePart cx mi p = .error e) :
-    interpField cx mi pm (p :: rest) v = ⟨pm, false, some e, none⟩ := by
+    interpField cx mi pm (p :: rest) v = ⟨pm, false, some e⟩ := by
   unfold interpField
   simp only [hf]
 
@@ -279,30 +279,6 @@ def resolvePath (cx : Cx) : Nat → List NamePart → Option (List FieldS)
     | .ok f => (resolvePath cx f.kind.msgIdx rest).map (f :: ·)
     | .error _ => none
 
-/-- declared fields are not extensions (true of every schema the harness derives) -/
-def SchemaOK (s : Schema) : Prop := ∀ i f, findByName (s.msg i).fields f.name = some f → f.extendee = ""
-
-theorem resolved_not_foreign (cx : Cx) (hs : SchemaOK cx.sch) (mi : Nat) (p : NamePart) (f : FieldS)
-    (h : resolvePart cx mi p = .ok f) : foreignExt cx.sch mi f = false := by
-  unfold resolvePart at h
-  split at h
-  · split at h
-    · simp at h
-    · split at h
-      · simp at h
-      · rename_i hne
-        simp at h; subst h
-        simp [foreignExt]; intro _; simpa using hne
-  · split at h
-    · simp at h
-    · rename_i g hg
-      simp at h; subst h
-      have hn : g.name = p.name := by
-        have := List.find?_some hg
-        simpa using this
-      have := hs mi g (by rw [hn]; exact hg)
-      simp [foreignExt, this]
-
 theorem setOne_ok (cx : Cx) (mi : Nat) (pm : PM) (f : FieldS) (r : VR)
     (hok : (setOne cx mi pm f r).ok = true) (hcard : f.card ≠ .rep) (hmap : f.isMap = false)
     (hpres : f.presence = true) :
@@ -320,12 +296,10 @@ theorem setOne_ok (cx : Cx) (mi : Nat) (pm : PM) (f : FieldS) (r : VR)
     · simp at hok
     · split at hok
       · simp at hok
-      · split at hok
-        · simp at hok
-        · rename_i h1 h2 h3
-          simp only [h1, h2, h3, if_false, Bool.false_eq_true]
-          unfold pmStore
-          simp [hpres, pmGet_pmSet_eq]
+      · rename_i h1 h2
+        simp only [h1, h2, if_false, Bool.false_eq_true]
+        unfold pmStore
+        simp [hpres, pmGet_pmSet_eq]
 
 theorem getPath_cons_set (pm : PM) (n : Nat) (sub : PM) (q : Nat) (qs : List Nat) :
     getPath (pmSet pm n (.msg sub)) (n :: q :: qs) = getPath sub (q :: qs) := by
@@ -333,7 +307,7 @@ theorem getPath_cons_set (pm : PM) (n : Nat) (sub : PM) (q : Nat) (qs : List Nat
 
 /-- `path_walk_spec`: when `a.b.(ext).c = v` is applied, exactly the leaf named by the path holds
     the converted value afterwards (intermediate messages are created on the way) -/
-theorem path_walk_spec (cx : Cx) (hs : SchemaOK cx.sch) (v : AV) (hv : v.isArr = false) :
+theorem path_walk_spec (cx : Cx) (v : AV) (hv : v.isArr = false) :
     ∀ (parts : List NamePart) (mi : Nat) (pm : PM) (fs : List FieldS) (leaf : FieldS),
       resolvePath cx mi parts = some fs → fs.getLast? = some leaf →
       leaf.card ≠ .rep → leaf.isMap = false → leaf.presence = true →
@@ -358,7 +332,6 @@ theorem path_walk_spec (cx : Cx) (hs : SchemaOK cx.sch) (v : AV) (hv : v.isArr =
         | nil =>
           simp [resolvePath] at hr; subst hr
           simp at hlast; subst hlast
-          have hnf := resolved_not_foreign cx hs mi p f hf
           unfold interpField at hok ⊢
           simp only [hf] at hok ⊢
           have hcore : setOptionField cx mi pm f v false = setOne cx mi pm f (fieldValue cx f v false) := by
@@ -391,20 +364,18 @@ theorem path_walk_spec (cx : Cx) (hs : SchemaOK cx.sch) (v : AV) (hv : v.isArr =
             · simp only [hm, hrp, Bool.false_eq_true, if_false] at hok ⊢
               have newCase : ∀ (hne : ∀ sub, pmGet pm f.num ≠ some (.msg sub)),
                   (if oneofConflict cx.sch mi pm f = true then
-                      ({ pm := pm, ok := false, err := firstErr (checkFieldUsage cx.target f) (some Err.oneof), pan := none } : SR)
+                      ({ pm := pm, ok := false, err := firstErr (checkFieldUsage cx.target f) (some Err.oneof) } : SR)
                     else
                       { pm := pmSet pm f.num (PV.msg (interpField cx f.kind.msgIdx [] (q :: qs) v).pm),
                         ok := (interpField cx f.kind.msgIdx [] (q :: qs) v).ok,
-                        err := firstErr (checkFieldUsage cx.target f) (interpField cx f.kind.msgIdx [] (q :: qs) v).err,
-                        pan := (interpField cx f.kind.msgIdx [] (q :: qs) v).pan }).ok = true →
+                        err := firstErr (checkFieldUsage cx.target f) (interpField cx f.kind.msgIdx [] (q :: qs) v).err }).ok = true →
                   ∃ pv, (fieldValue cx leaf v false).val = some pv ∧
                     getPath (if oneofConflict cx.sch mi pm f = true then
-                      ({ pm := pm, ok := false, err := firstErr (checkFieldUsage cx.target f) (some Err.oneof), pan := none } : SR)
+                      ({ pm := pm, ok := false, err := firstErr (checkFieldUsage cx.target f) (some Err.oneof) } : SR)
                     else
                       { pm := pmSet pm f.num (PV.msg (interpField cx f.kind.msgIdx [] (q :: qs) v).pm),
                         ok := (interpField cx f.kind.msgIdx [] (q :: qs) v).ok,
-                        err := firstErr (checkFieldUsage cx.target f) (interpField cx f.kind.msgIdx [] (q :: qs) v).err,
-                        pan := (interpField cx f.kind.msgIdx [] (q :: qs) v).pan }).pm
+                        err := firstErr (checkFieldUsage cx.target f) (interpField cx f.kind.msgIdx [] (q :: qs) v).err }).pm
                       (List.map (fun x => x.num) (f :: g :: gs)) = some pv := by
                 intro _ hok2
                 by_cases hoc : oneofConflict cx.sch mi pm f = true
@@ -432,14 +403,13 @@ theorem path_walk_spec (cx : Cx) (hs : SchemaOK cx.sch) (v : AV) (hv : v.isArr =
 
 /-- `set_twice_rejected`: a non-repeated field that is already set is not set again: the statement
     is not applied and the message is unchanged (the error is "already set" unless the value itself is bad) -/
-theorem set_twice_rejected (cx : Cx) (hs : SchemaOK cx.sch) (mi : Nat) (pm : PM) (p : NamePart) (f : FieldS) (v : AV)
+theorem set_twice_rejected (cx : Cx) (mi : Nat) (pm : PM) (p : NamePart) (f : FieldS) (v : AV)
     (hv : v.isArr = false) (hf : resolvePart cx mi p = .ok f)
     (hcard : f.card ≠ .rep) (hmap : f.isMap = false) (hhas : pmHas pm f = true) :
     (interpField cx mi pm [p] v).ok = false ∧ (interpField cx mi pm [p] v).pm = pm ∧
     ((fieldValue cx f v false).val ≠ none → oneofConflict cx.sch mi pm f = false →
         (fieldValue cx f v false).err = none → checkFieldUsage cx.target f = none →
         (interpField cx mi pm [p] v).err = some .dup) := by
-  have hnf := resolved_not_foreign cx hs mi p f hf
   have hc : (f.card == Card.rep) = false := by cases h : f.card <;> simp_all
   have hcore : setOptionField cx mi pm f v false = setOne cx mi pm f (fieldValue cx f v false) := by
     unfold setOptionField
@@ -450,7 +420,7 @@ theorem set_twice_rejected (cx : Cx) (hs : SchemaOK cx.sch) (mi : Nat) (pm : PM)
   cases hval : (fieldValue cx f v false).val with
   | none => simp
   | some pv =>
-    simp only [hnf, hmap, hc, hhas, Bool.false_eq_true, if_false, if_true]
+    simp only [hmap, hc, hhas, Bool.false_eq_true, if_false, if_true]
     split
     · simp_all
     · simp_all [firstErr]
@@ -467,33 +437,25 @@ theorem oneof_conflict_rejected (cx : Cx) (mi : Nat) (pm : PM) (f : FieldS) (r :
 def strictRun (s : Schema) (target edition mi : Nat) (fc : Option FieldCtx) (stmts : List Stmt) : ElemR :=
   runElem s ⟨false, true⟩ target edition mi fc stmts
 
-/-- last clause of C20 at full strength -/
+/-- last clause of C20 at full strength: every element kind, fields included -/
 def C20_none_left_full : Prop :=
   ∀ s target edition mi fc stmts,
     (strictRun s target edition mi fc stmts).fatal = none → (strictRun s target edition mi fc stmts).remain = []
 
-/-- witness: `optional int32 f = 1 [default.foo = 1];` — interpretation succeeds and the statement
-    stays in uninterpreted_option (the loop skips every field option whose FIRST name part is
-    `default`/`json_name`, the pseudo-option pass only takes one-part names) -/
+/-- `optional int32 f = 1 [default.foo = 1];` — before 3b5d7843 interpretation succeeded and left the
+    statement in uninterpreted_option (refuted statement of the first delivery); now it is rejected -/
 def witnessStmt : Stmt := ⟨[⟨false, "default"⟩, ⟨false, "foo"⟩], .uint 1⟩
 def witnessField : FieldCtx := ⟨.i32, false, false, "f"⟩
 
-theorem witness_left :
-    (strictRun default 4 0 0 (some witnessField) [witnessStmt]).fatal = none ∧
-    (strictRun default 4 0 0 (some witnessField) [witnessStmt]).remain = [0] := by
+theorem multi_part_pseudo_name_rejected :
+    (strictRun default 4 0 0 (some witnessField) [witnessStmt]).fatal = some .nofield := by
   decide
-
-theorem C20_none_left_full_refuted : ¬ C20_none_left_full := by
-  intro h
-  have := h default 4 0 0 (some witnessField) [witnessStmt] witness_left.1
-  rw [witness_left.2] at this
-  exact absurd this (by decide)
 
 def keepP (isField custom : Bool) (p : Nat × Stmt) : Bool :=
   firstIsExt p.2 != custom || isPseudo isField p.2
 
 /-- in a strict pass that returns no error, exactly the statements of the other pass (and the
-    field pseudo-option names) are handed on -/
+    one-part field pseudo-option names) are handed on -/
 theorem optLoop_strict_remain (cx : Cx) (isField custom : Bool) (mi : Nat) :
     ∀ (stmts : List (Nat × Stmt)) (msg : PM) (remain : List (Nat × Stmt)) (msg' : PM) (remain' : List (Nat × Stmt)),
       optLoop cx false isField custom mi stmts msg remain = (msg', remain', none) →
@@ -520,9 +482,7 @@ theorem optLoop_strict_remain (cx : Cx) (isField custom : Bool) (mi : Nat) :
         simp only [List.filter_cons, hk]
         split at h
         · simp at h
-        · split at h
-          · simp at h
-          · exact ih _ _ _ _ h
+        · exact ih _ _ _ _ h
 
 theorem interpElem_strict_remain (s : Schema) (linked : Bool) (target edition : Nat) (isField custom : Bool) (mi : Nat)
     (opts : PM) (un : List (Nat × Stmt))
@@ -553,32 +513,296 @@ theorem interpElem_strict_remain (s : Schema) (linked : Bool) (target edition : 
           simp only [hv, if_false, Bool.false_eq_true]
           simpa using this
 
-/-- `no_uninterpreted_left`: for every element that is not a field, and for every field whose
-    options do not start with the names `default` / `json_name`, a successful strict
-    interpretation leaves no uninterpreted option -/
-theorem no_uninterpreted_left (s : Schema) (target edition mi : Nat) (stmts : List Stmt)
-    (h : (strictRun s target edition mi none stmts).fatal = none) :
-    (strictRun s target edition mi none stmts).remain = [] := by
-  unfold strictRun runElem at h ⊢
+/-- a statement is the pseudo-option `name` -/
+def isNamed (name : String) (p : Nat × Stmt) : Bool :=
+  p.2.parts.length == 1 && !firstIsExt p.2 && firstName p.2 == name
+
+theorem isPseudo_iff (st : Stmt) (i : Nat) :
+    isPseudo true st = (isNamed "default" (i, st) || isNamed "json_name" (i, st)) := by
+  obtain ⟨parts, v⟩ := st
+  cases parts with
+  | nil => simp [isPseudo, isNamed]
+  | cons p ps =>
+    cases ps with
+    | nil => cases hp : p.isExt <;> simp [isPseudo, isNamed, firstIsExt, firstName, hp]
+    | cons q qs => simp [isPseudo, isNamed]
+
+theorem findOptionIdxs_nil (name : String) :
+    ∀ (l : List (Nat × Stmt)) (i : Nat), findOptionIdxs name l i = [] → ∀ p ∈ l, isNamed name p = false := by
+  intro l
+  induction l with
+  | nil => intro i _ p hp; simp at hp
+  | cons a r ih =>
+    intro i h p hp
+    obtain ⟨j, st⟩ := a
+    unfold findOptionIdxs at h
+    split at h
+    · simp at h
+    · rename_i hc
+      simp only [List.mem_cons] at hp
+      rcases hp with hp | hp
+      · subst hp; simpa [isNamed] using hc
+      · exact ih _ h p hp
+
+theorem mem_removeAt {α} (l : List α) (n : Nat) (a : α) (h : a ∈ removeAt l n) : a ∈ l := by
+  induction l generalizing n with
+  | nil => simp [removeAt] at h
+  | cons b r ih =>
+    cases n with
+    | zero => simp [removeAt] at h; simp [h]
+    | succ m =>
+      simp [removeAt] at h
+      rcases h with h | h
+      · simp [h]
+      · simp [ih _ h]
+
+theorem findOptionIdxs_ge (name : String) :
+    ∀ (l : List (Nat × Stmt)) (i : Nat), ∀ j ∈ findOptionIdxs name l i, i ≤ j := by
+  intro l
+  induction l with
+  | nil => intro i j hj; simp [findOptionIdxs] at hj
+  | cons a r ih =>
+    intro i j hj
+    obtain ⟨k, st⟩ := a
+    unfold findOptionIdxs at hj
+    split at hj
+    · simp only [List.mem_cons] at hj
+      rcases hj with hj | hj
+      · omega
+      · have := ih _ _ hj; omega
+    · have := ih _ _ hj; omega
+
+/-- the unique match is the one that gets removed -/
+theorem findOptionIdxs_single (name : String) :
+    ∀ (l : List (Nat × Stmt)) (i j : Nat), findOptionIdxs name l i = [j] →
+      ∀ p ∈ removeAt l (j - i), isNamed name p = false := by
+  intro l
+  induction l with
+  | nil => intro i j h; simp [findOptionIdxs] at h
+  | cons a r ih =>
+    intro i j h p hp
+    obtain ⟨k, st⟩ := a
+    unfold findOptionIdxs at h
+    split at h
+    · -- the head matches: it is the one, the tail has no match
+      simp only [List.cons.injEq] at h
+      obtain ⟨hij, htl⟩ := h
+      subst hij
+      simp [removeAt] at hp
+      exact findOptionIdxs_nil name r _ htl p hp
+    · rename_i hc
+      have hge := findOptionIdxs_ge name r (i + 1) j (by rw [h]; simp)
+      have hji : j - i = (j - (i + 1)) + 1 := by omega
+      rw [hji] at hp
+      simp [removeAt] at hp
+      rcases hp with hp | hp
+      · subst hp; simpa [isNamed] using hc
+      · exact ih _ _ h p hp
+
+theorem findOption_none (un : List (Nat × Stmt)) (name : String) (h : findOption un name = .ok none) :
+    ∀ p ∈ un, isNamed name p = false := by
+  unfold findOption at h
+  cases hi : findOptionIdxs name un 0 with
+  | nil => exact findOptionIdxs_nil name un 0 hi
+  | cons j js => cases js <;> simp [hi] at h
+
+theorem findOption_some (un : List (Nat × Stmt)) (name : String) (i : Nat) (h : findOption un name = .ok (some i)) :
+    ∀ p ∈ removeAt un i, isNamed name p = false := by
+  unfold findOption at h
+  cases hi : findOptionIdxs name un 0 with
+  | nil => simp [hi] at h
+  | cons j js =>
+    cases js with
+    | cons _ _ => simp [hi] at h
+    | nil =>
+      simp [hi] at h; subst h
+      simpa using findOptionIdxs_single name un 0 j hi
+
+theorem jsonStep_clears (fc : FieldCtx) (un : List (Nat × Stmt)) (h : (jsonStep fc un).2.2.1 = none) :
+    (∀ p ∈ (jsonStep fc un).1, isNamed "json_name" p = false) ∧
+    (∀ p ∈ (jsonStep fc un).1, p ∈ un) ∧ (jsonStep fc un).2.2.2 = false := by
+  unfold jsonStep at h ⊢
+  cases hf : findOption un "json_name" with
+  | error e => simp [hf] at h
+  | ok o =>
+    cases o with
+    | none => simp only [hf]; exact ⟨findOption_none un _ hf, fun _ hp => hp, trivial⟩
+    | some i =>
+      simp only [hf] at h ⊢
+      split at h
+      · split at h
+        · simp at h
+        · split at h
+          · simp at h
+          · rename_i h1 h2
+            simp only [h1, h2, if_false, Bool.false_eq_true]
+            exact ⟨findOption_some un _ i hf, fun p hp => mem_removeAt _ _ _ hp, trivial⟩
+      · simp at h
+
+theorem defaultStep_clears (s : Schema) (linked : Bool) (fc : FieldCtx) (un : List (Nat × Stmt))
+    (h : (defaultStep s linked fc un).2.2 = none) :
+    (∀ p ∈ (defaultStep s linked fc un).1, isNamed "default" p = false) ∧
+    (∀ p ∈ (defaultStep s linked fc un).1, p ∈ un) := by
+  unfold defaultStep at h ⊢
+  cases hf : findOption un "default" with
+  | error e => simp [hf] at h
+  | ok o =>
+    cases o with
+    | none => simp only [hf]; exact ⟨findOption_none un _ hf, fun _ hp => hp⟩
+    | some i =>
+      simp only [hf] at h ⊢
+      split at h
+      · simp at h
+      · split at h
+        · simp at h
+        · rename_i h1 h2
+          simp only [h1, h2, if_false, Bool.false_eq_true]
+          split at h
+          · simp at h
+          · rename_i txt htxt
+            simp only [htxt]
+            exact ⟨findOption_some un _ i hf, fun p hp => mem_removeAt _ _ _ hp⟩
+
+/-- after a pseudo-option pass without error no one-part `default` / `json_name` is left -/
+theorem pseudoOptions_clears (s : Schema) (linked : Bool) (fc : FieldCtx) (un : List (Nat × Stmt))
+    (h : (pseudoOptions s linked fc un).err = none) :
+    ∀ p ∈ (pseudoOptions s linked fc un).un, isPseudo true p.2 = false := by
+  unfold pseudoOptions at h ⊢
   simp only at h ⊢
-  cases h1 : (interpElem s ⟨false, true⟩ target edition false false mi [] (zipIdxFrom stmts 0)).fatal with
-  | some e => simp [h1] at h
+  by_cases hr : (jsonStep (unlinkedFieldCtx linked fc) un).2.2.2 = true
+  · simp only [hr, if_true] at h
+    have := (jsonStep_clears _ un h).2.2
+    rw [hr] at this; exact absurd this (by decide)
+  · simp only [hr, if_false, Bool.false_eq_true] at h ⊢
+    have hj : (jsonStep (unlinkedFieldCtx linked fc) un).2.2.1 = none := by
+      cases hx : (jsonStep (unlinkedFieldCtx linked fc) un).2.2.1 <;> simp [hx, firstErr] at h ⊢
+    have hd : (defaultStep s linked (unlinkedFieldCtx linked fc) (jsonStep (unlinkedFieldCtx linked fc) un).1).2.2 = none := by
+      simpa [hj, firstErr] using h
+    obtain ⟨j1, _, _⟩ := jsonStep_clears _ un hj
+    obtain ⟨d1, d2⟩ := defaultStep_clears s linked _ _ hd
+    intro p hp
+    rw [isPseudo_iff p.2 p.1]
+    simp [d1 p hp, j1 p (d2 p hp)]
+
+theorem filter_keepP_noPseudo (custom : Bool) (l : List (Nat × Stmt)) (h : ∀ p ∈ l, isPseudo true p.2 = false) :
+    l.filter (keepP true custom) = l.filter (fun p => firstIsExt p.2 != custom) := by
+  apply List.filter_congr
+  intro p hp
+  simp [keepP, h p hp]
+
+/-- a sub-list of statements without pseudo-options has none either -/
+theorem noPseudo_filter (l : List (Nat × Stmt)) (q : Nat × Stmt → Bool) (h : ∀ p ∈ l, isPseudo true p.2 = false) :
+    ∀ p ∈ l.filter q, isPseudo true p.2 = false :=
+  fun p hp => h p (List.mem_filter.mp hp).1
+
+/-- `no_uninterpreted_left`: C20's last clause holds at full strength (since 3b5d7843): whenever
+    strict interpretation of an element — of any kind, fields with their pseudo-options included —
+    succeeds, no option statement stays uninterpreted. -/
+theorem no_uninterpreted_left : C20_none_left_full := by
+  intro s target edition mi fc stmts h
+  unfold strictRun runElem at h ⊢
+  cases fc with
   | none =>
-    simp only [h1] at h ⊢
-    have r1 := interpElem_strict_remain s true target edition false false mi [] _ h1
-    cases h2 : (interpElem s ⟨false, true⟩ target edition false true mi
-        (interpElem s ⟨false, true⟩ target edition false false mi [] (zipIdxFrom stmts 0)).opts
-        (interpElem s ⟨false, true⟩ target edition false false mi [] (zipIdxFrom stmts 0)).remain).fatal with
-    | some e => simp [h2] at h
+    simp only at h ⊢
+    cases h1 : (interpElem s ⟨false, true⟩ target edition false false mi [] (zipIdxFrom stmts 0)).fatal with
+    | some e => simp [h1] at h
     | none =>
-      have r2 := interpElem_strict_remain s true target edition false true mi _ _ h2
-      rw [r2, r1]
-      simp only [List.filter_filter, List.map_eq_nil_iff, List.filter_eq_nil_iff]
-      intro a _
-      have hp : ∀ st, isPseudo false st = false := by
-        intro st; unfold isPseudo; split <;> simp
-      simp only [keepP, hp, Bool.or_false]
-      cases firstIsExt a.2 <;> simp
+      simp only [h1] at h ⊢
+      have r1 := interpElem_strict_remain s true target edition false false mi [] _ h1
+      cases h2 : (interpElem s ⟨false, true⟩ target edition false true mi
+          (interpElem s ⟨false, true⟩ target edition false false mi [] (zipIdxFrom stmts 0)).opts
+          (interpElem s ⟨false, true⟩ target edition false false mi [] (zipIdxFrom stmts 0)).remain).fatal with
+      | some e => simp [h2] at h
+      | none =>
+        have r2 := interpElem_strict_remain s true target edition false true mi _ _ h2
+        rw [r2, r1]
+        simp only [List.filter_filter, List.map_eq_nil_iff, List.filter_eq_nil_iff]
+        intro a _
+        have hp : ∀ st, isPseudo false st = false := by
+          intro st; unfold isPseudo; split <;> simp
+        simp only [keepP, hp, Bool.or_false]
+        cases firstIsExt a.2 <;> simp
+  | some f =>
+    simp only at h ⊢
+    -- first pass
+    generalize hun : zipIdxFrom stmts 0 = un at h ⊢
+    unfold interpFieldElem at h ⊢
+    simp only [Bool.false_eq_true, if_false, Bool.not_false, Bool.and_true, Bool.not_true, Bool.and_false] at h ⊢
+    -- the pseudo-option pass of the first call
+    generalize hp1 : (if (!un.isEmpty) = true then pseudoOptions s true f un else ⟨un, none, none, none⟩) = P1 at h ⊢
+    have hP1 : P1.err = none → ∀ p ∈ P1.un, isPseudo true p.2 = false := by
+      intro he
+      by_cases hne : (!un.isEmpty) = true
+      · simp only [hne, if_true] at hp1; subst hp1; exact pseudoOptions_clears s true f un he
+      · simp only [hne, if_false, Bool.false_eq_true] at hp1; subst hp1
+        have : un = [] := by simpa using hne
+        subst this; intro p hp; simp at hp
+    cases he1 : P1.err with
+    | some e => simp [he1] at h
+    | none =>
+      simp only [he1] at h ⊢
+      have clean := hP1 he1
+      by_cases hu1 : P1.un.isEmpty = true
+      · -- nothing left after the pseudo-options
+        simp only [hu1, if_true] at h ⊢
+        have : P1.un = [] := by simpa using hu1
+        simp [this]
+      · simp only [hu1, if_false, Bool.false_eq_true] at h ⊢
+        cases h1 : (interpElem s ⟨false, true⟩ target edition true false mi [] P1.un).fatal with
+        | some e => simp [h1] at h
+        | none =>
+          simp only [h1] at h ⊢
+          have r1 := interpElem_strict_remain s true target edition true false mi [] _ h1
+          rw [filter_keepP_noPseudo false _ clean] at r1
+          generalize hR : (interpElem s ⟨false, true⟩ target edition true false mi [] P1.un).remain = R at h r1 ⊢
+          generalize (interpElem s ⟨false, true⟩ target edition true false mi [] P1.un).opts = O at h ⊢
+          have cleanR : ∀ p ∈ R, isPseudo true p.2 = false := by
+            rw [r1]; exact noPseudo_filter _ _ clean
+          by_cases hu2 : R.isEmpty = true
+          · simp only [hu2, if_true] at h ⊢
+            have : R = [] := by simpa using hu2
+            simp [this]
+          · simp only [hu2, if_false, Bool.false_eq_true] at h ⊢
+            cases h2 : (interpElem s ⟨false, true⟩ target edition true true mi O R).fatal with
+            | some e => simp [h2] at h
+            | none =>
+              simp only [h2]
+              have r2 := interpElem_strict_remain s true target edition true true mi O R h2
+              rw [filter_keepP_noPseudo true _ cleanR] at r2
+              rw [r2, r1]
+              simp only [List.filter_filter, List.map_eq_nil_iff, List.filter_eq_nil_iff]
+              intro a _
+              cases firstIsExt a.2 <;> simp
+
+/-! ## The two former panics are rejections (28d6433e, 47c63915)
+
+The model has no panic outcome any more (`VR`, `SR`, `Err` carry none): on every input every model
+function returns a value or one of the listed error classes, and the correspondence run compares
+that with the implementation — an implementation panic would be a disagreement and an oracle
+failure (`impl-panics[…]`). -/
+
+/-- an extension of another message inside a message literal is an error (first delivery: a
+    dynamicpb panic); `msgLit` turns the error into an invalid literal -/
+theorem foreign_extension_in_literal_rejected (cx : Cx) (mi : Nat) (fqn : String) (f : FieldS)
+    (hl : cx.linked = true) (hf : cx.sch.findExt fqn = some f) (hfo : foreignExt cx.sch mi f = true) :
+    resolveLiteralExt cx mi fqn = .error .extendee := by
+  simp [resolveLiteralExt, hl, hf, hfo]
+
+/-- … and an extension of the literal's own message resolves -/
+theorem own_extension_in_literal_resolves (cx : Cx) (mi : Nat) (fqn : String) (f : FieldS)
+    (hl : cx.linked = true) (hf : cx.sch.findExt fqn = some f) (hfo : foreignExt cx.sch mi f = false) :
+    resolveLiteralExt cx mi fqn = .ok f := by
+  simp [resolveLiteralExt, hl, hf, hfo]
+
+/-- a field name that matches a scalar, enum or plain message field only after lower-casing is
+    "not found" (first delivery: nil dereference for scalar and enum fields) -/
+theorem lowercase_match_of_non_group_not_found (s : Schema) (mi : Nat) (name : String) (f : FieldS)
+    (h1 : findByName (s.msg mi).fields name = none)
+    (h2 : findByName (s.msg mi).fields name.toLower = some f)
+    (h3 : ∀ g, f.kind ≠ .group g) :
+    lookupLiteralField s mi name = none := by
+  unfold lookupLiteralField
+  simp only [h1, h2]   -- the catch-all arm of the match: no `group` kind by h3
 
 /-! ## Which statements are rejected: validation after the two passes -/
 
@@ -681,7 +905,10 @@ end PCV.Props.C20
 #print axioms PCV.Props.C20.path_walk_spec
 #print axioms PCV.Props.C20.set_twice_rejected
 #print axioms PCV.Props.C20.oneof_conflict_rejected
-#print axioms PCV.Props.C20.C20_none_left_full_refuted
+#print axioms PCV.Props.C20.multi_part_pseudo_name_rejected
+#print axioms PCV.Props.C20.pseudoOptions_clears
 #print axioms PCV.Props.C20.no_uninterpreted_left
 #print axioms PCV.Props.C20.C20_validated_full_refuted
 #print axioms PCV.Props.C20.features_validated_nonfield
+#print axioms PCV.Props.C20.foreign_extension_in_literal_rejected
+#print axioms PCV.Props.C20.lowercase_match_of_non_group_not_found
